@@ -250,7 +250,7 @@ pub fn def() -> PropDef {
         check,
         cases: |t| t.pick(12_000, 400_000),
         profiles: &["release", "dbg"],
-        required: &["exact-path", "gen-on-wall", "n=1", "fam:Lr", "separation<=1e-9L", "dim1", "dim2", "dim3", "periodic"],
+        required: &["exact-path", "gen-on-wall", "n=1", "fam:Lr", "fam:Lb", "separation<=1e-9L", "dim1", "dim2", "dim3", "periodic"],
         fixed: None,
         assumptions: &["valid input as in C01 (closed box, separation >= 2^-44 L)", "exemptions of the sub-oracles as stated for C01-C04 (ill-conditioned cells, unresolvable arrangements, low-dimensional areas at coordinates > 1e10)", "termination is observed as finishing within the watchdog; a watchdog hit is reported as inconclusive"],
     }
